@@ -588,7 +588,7 @@ CHECKS = {
                           'FastPasta.C14.run_set_once', 'FastPasta.C14.run_error_total', 'FastPasta.C14.run_errors_nofatal', 'FastPasta.C03.scanAll_setOnce',
                           'FastPasta.C03.scanLoop_setOnce_later', 'FastPasta.C03.loadCdp_setOnce', 'FastPasta.C14.run_field',
                           # tie by translation (Spec/TrigSrcGen.lean): per-bit trigger counters = TriggerStats::collect_stats
-                          'FastPasta.C14.trigger_counters_src']),
+                          'FastPasta.C14.trigger_counters_src', 'FastPasta.C14.reader_counters_src']),
     'C18': dict(modules=['FastPasta.Props.C18'], needs_harness=False, corr='truncation_model', run=run_c18,
                 theorems=['FastPasta.C18.truncated_findings_are_prefix', 'FastPasta.linkRun_append', 'FastPasta.C18.link_findings_prefix',
                           'FastPasta.C18.runValidators_append', 'FastPasta.C18.dispStep_msgs_grow', 'FastPasta.C18.validator_msgs_grow',
